@@ -7,19 +7,25 @@ set_option linter.unusedVariables false
 namespace Neatvi.Lemmas.C05f
 open Neatvi Neatvi.Uc Neatvi.Lbuf Neatvi.Ex Neatvi.Mot Neatvi.Vi Neatvi.Rset
 
-/-- the assumption on the ex layer (another module's subject): an ex command entered from vi, on a state
-    with the invariant, does not trap … -/
+/-- (superseded, **false** as stated: `Props/C05h.lean`, `exNoTrap_is_false`; kept because C05h refers to it) the old
+    assumption on the ex layer: an ex command entered from vi, on a state with the invariant, does not trap … -/
 def ExNoTrap : Prop :=
   ∀ (ln : Bytes) (s : VS), SOk s True → RowOk s → NoNul ln → exCommandV ln s ≠ Res.trap
 
-/-- … and keeps the invariant of the buffers and the registers -/
+/-- (superseded, false as stated: kept for C05h) … and keeps the invariant of the buffers and the registers -/
 def ExKeeps : Prop :=
   ∀ (ln : Bytes) (s : VS) (rc : Int) (s' : VS), SOk s True → RowOk s → NoNul ln →
     exCommandV ln s = Res.ok rc s' → SOk s' False
 
-theorem wp_exCommandV (hX1 : ExNoTrap) (hX2 : ExKeeps) (ln : Bytes) {s : VS} (hs : SOk s True) (hr : RowOk s)
-    (hln : NoNul ln) (Q : Int → VS → Prop) (hQ : ∀ rc s', SOk s' False → Q rc s') : wp (exCommandV ln) Q s :=
-  wp_of (hX1 ln s hs hr hln) (fun rc s' h => hQ rc s' (hX2 ln s rc s' hs hr hln h))
+/-- **what the loop of `vi()` needs of one ex command** `ln` entered in the state `s` (from `:` or `ZZ`): it does not
+    trap, and it keeps the buffer / register part of the invariant.  Parameterised by the line and the state: the
+    first half follows from C05e for the lines of its class `ColonLineOk` (`Props/C05i.lean`) -/
+def ExCallOk (ln : Bytes) (s : VS) : Prop :=
+  exCommandV ln s ≠ Res.trap ∧ ∀ rc s', exCommandV ln s = Res.ok rc s' → SOk s' False
+
+theorem wp_exCommandV {ln : Bytes} {s : VS} (h : ExCallOk ln s) (Q : Int → VS → Prop)
+    (hQ : ∀ rc s', SOk s' False → Q rc s') : wp (exCommandV ln) Q s :=
+  wp_of h.1 (fun rc s' hm => hQ rc s' (h.2 rc s' hm))
 
 /-- what `commandTail` leaves: after a command that goes on to `viPost` the invariant (a command may be in
     progress); otherwise either the editor is quitting or nothing but the marks and the queue changed -/
@@ -131,6 +137,22 @@ theorem jump_setMark {lb : Lb} (hlen : lb.mark.length = lb.markOff.length) {k : 
 
 /-- the state after `lbuf_mark(xb, '^', xrow, xoff)`, the first thing a command does -/
 def markCaret (s : VS) : VS := { s with ed := markEd s.ed 94 s.ed.xrow s.ed.xoff }
+
+/-- `s0` is a state in which the key `k` (`:`, or the second `Z`) among the pending keys of `s` has just been read and
+    the caret mark set: the editor is that of `markCaret s`, the rest of the queue is pending -/
+def ColonAt (k : Int) (s s0 : VS) : Prop := s0.ed = (markCaret s).ed ∧ k :: allQ s0 <:+ allQ s
+
+/-- **the hypothesis about the ex commands of one iteration** (per state): the line the `:` prompt returns for the
+    pending keys, and the `x` of `ZZ`, are handled by `ex_command` without a trap and keep the invariant -/
+structure ColonOk (s : VS) : Prop where
+  colon : ∀ (s0 : VS) (ln : Bytes) (s1 : VS), ColonAt 58 s s0 → viPrompt true s0 = Res.ok (some ln) s1 → ln.isEmpty = false →
+    ExCallOk (if ln.headD 0 != 58 then 58 :: ln else ln) s1
+  zz : ∀ (s0 : VS), ColonAt 90 s s0 → ExCallOk (strOf "x") s0
+
+theorem ColonOk.mono {s s' : VS} (h : ColonOk s) (he : s'.ed = s.ed) (hq : allQ s' <:+ allQ s) : ColonOk s' := by
+  have hm : (markCaret s').ed = (markCaret s).ed := by unfold markCaret; dsimp only; rw [he]
+  exact ⟨fun s0 ln s1 ⟨a1, a2⟩ h1 h2 => h.colon s0 ln s1 ⟨a1.trans hm, a2.trans hq⟩ h1 h2,
+    fun s0 ⟨a1, a2⟩ => h.zz s0 ⟨a1.trans hm, a2.trans hq⟩⟩
 
 theorem markCaret_regs (s : VS) : (markCaret s).ed.regs = s.ed.regs := by
   unfold markCaret; simp
